@@ -298,3 +298,24 @@ Proof.
     + constructor; [|constructor]. unfold dev_rt. eexists. eexists. split; [vm_compute; reflexivity|]. split; [reflexivity|]. split; [reflexivity|].
       split; [vm_compute; split; [reflexivity|discriminate]|]. split; [vm_compute; discriminate|vm_compute; reflexivity].
 Qed.
+
+(* ... and for every writer kind, write-buffer size and caller-preset data size, batch or stream encoder (C09 composed with the
+   above): the destination ends up holding the bytes of encode_fits, and decoding the destination content yields the messages *)
+From Fit Require Import Model.Writer Proofs.RoundtripWriter.
+Theorem C01_roundtrip_any_writer : forall c dc k size fs (ps : list (eparts * N)), e_compressed c = false -> c_expand dc = false -> 765 <= c_bufsize dc ->
+  fs <> [] -> Forall2 (fun f x => encode_parts c f = Ok (fst x)) fs ps ->
+  exists w' rs, encode_chain (wst_new k size [] None) ps [] = (repeat false (length ps), w')
+    /\ Forall2 (fun f r => encode_fit c f = Ok r) fs rs /\ final_bytes w' = concat (map er_bytes rs)
+    /\ (Forall (fun r => msgs_rtd (e_big c) [] (er_msgs r) /\ len (er_bytes r) < 4294967296 /\ bytes_ok (er_bytes r)) rs ->
+        exists fts, decode_stream dc (final_bytes w') = Ok fts /\ Forall2 (fun ft r => map content (fit_msgs ft) = map content (er_msgs r)) fts rs).
+Proof. exact roundtrip_any_writer. Qed.
+Print Assumptions C01_roundtrip_any_writer.
+
+Theorem C01_roundtrip_stream_writer : forall c dc k size fs (ps : list eparts), e_compressed c = false -> c_expand dc = false -> 765 <= c_bufsize dc ->
+  fs <> [] -> Forall2 (fun f p => encode_parts c f = Ok p) fs ps -> (can_seek k || can_writeat k = true)%bool ->
+  exists w' rs, stream_chain (wst_new k size [] None) ps 0 [] = (repeat false (length ps), w')
+    /\ Forall2 (fun f r => encode_fit c f = Ok r) fs rs /\ final_bytes w' = concat (map er_bytes rs)
+    /\ (Forall (fun r => msgs_rtd (e_big c) [] (er_msgs r) /\ len (er_bytes r) < 4294967296 /\ bytes_ok (er_bytes r)) rs ->
+        exists fts, decode_stream dc (final_bytes w') = Ok fts /\ Forall2 (fun ft r => map content (fit_msgs ft) = map content (er_msgs r)) fts rs).
+Proof. exact roundtrip_stream_writer. Qed.
+Print Assumptions C01_roundtrip_stream_writer.
